@@ -111,7 +111,7 @@ def canon_obs(obs):
     out = []
     for step in obs:
         chs, lim, st = step
-        loc, dests, tstate, stats, ctrs, bad = st
+        loc, dests, tstate, stats, ctrs, bad, rsl = st
         # destination ids: only the id<->prefix relation of the step is compared
         rel = {}
         for c in list(chs) + list(loc):
@@ -124,7 +124,8 @@ def canon_obs(obs):
             chs = [[c[0], 0] + c[2:] for c in chs]
             loc = [[c[0], 0] + c[2:] for c in loc]
         out.append([sorted(chs, key=lambda c: c[0]), lim,
-                    [sorted(loc, key=lambda c: c[0]), sorted(dests, key=lambda d: d[0]), tstate, stats, ctrs, bad]])
+                    [sorted(loc, key=lambda c: c[0]), sorted(dests, key=lambda d: d[0]), tstate, stats, ctrs, bad,
+                     [[a, sorted(per, key=lambda x: x[0])] for a, per in rsl]]])
     return out
 
 # ------------------------------------------------------------- reference RIB
